@@ -412,7 +412,8 @@ def s6(ctx, R):
             # cut at the end of the slot loop: the command terminator is written after it
             consts = [w.v if isinstance(w, fd.Const) else None for w in ws]
             if label == "string list":
-                if not any(w is None for w in consts):
+                want = "[%s]" % ", ".join(LIST)
+                if not (any(w is None for w in consts) or consts.count(want) == 1):
                     problems.append("writes %r for a list value" % (consts,))
                 continue
             if consts.count(expect) != 1:
